@@ -391,7 +391,7 @@ Definition do_renum : RM event :=
                               | Ok l => (set_listing r l, Ok tt)
                               | Err e => (r, Err e) | Panic => (r, Panic) | Hang => (r, Hang)
                               end) ;;
-           rdo _ <~ rmod (fun r => set_state r StStopped) ;;
+           rdo _ <~ rmod (fun r => set_state (set_dirty r true) StStopped) ;;
            do_end
        end.
 
@@ -754,7 +754,9 @@ Definition compile_listing (p : program) (ls : list (N * list token)) : program 
 
 Definition enter_direct (r : rt) (l : line) : rt :=
   let r1 := if r_dirty r
-            then set_dirty (set_prog r (compile_listing (r_prog r) (ls_lines (r_listing r)))) false
+            then (* addresses kept from the previous compile are discarded with it *)
+                 set_cont (set_fns (set_stack_len
+                   (set_dirty (set_prog r (compile_listing (r_prog r) (ls_lines (r_listing r)))) false) [] 0) []) StStopped
             else r in
   let p := program_link (codegen_line (r_prog r1) None (parse None (snd l))) in
   let ls := r_listing r1 in
